@@ -29,7 +29,7 @@ fn offset_string(o: i64) -> String {
 }
 
 pub fn exec(op: &str, a: &Value) -> Option<Value> {
-    if !op.starts_with("Zoned.") { return None; }
+    if !op.starts_with("Zoned.") && !op.starts_with("ZDur.") { return None; }
     let z = Zone::from_json(&a["zone"]);
     let p = SynthProvider::with_zone(z.clone());
     Some(match op {
@@ -54,6 +54,13 @@ pub fn exec(op: &str, a: &Value) -> Option<Value> {
         "Zoned.add" => run(|| zdt(&z, js::i(a, "t"))?.add_with_provider(&arg_duration(&a["dur"])?, arg_ovf(a), &p), |x| rel_of(x.epoch_nanoseconds().as_i128())),
         "Zoned.subtract" => run(|| zdt(&z, js::i(a, "t"))?.subtract_with_provider(&arg_duration(&a["dur"])?, arg_ovf(a), &p), |x| rel_of(x.epoch_nanoseconds().as_i128())),
         "Zoned.until" => run(|| zdt(&z, js::i(a, "t"))?.until_with_provider(&zdt(&z, js::i(a, "other"))?, arg_settings(&a["st"])?, &p), p_duration),
+        // Duration round / total / compare relative to a zoned date-time of the synthetic zone
+        "ZDur.round" => run(|| { let rel = temporal_rs::options::RelativeTo::ZonedDateTime(zdt(&z, js::i(a, "t"))?);
+            arg_duration(&a["recv"])?.round_with_provider(arg_rounding(&a["st"])?, Some(rel), &p) }, p_duration),
+        "ZDur.total" => run(|| { let rel = temporal_rs::options::RelativeTo::ZonedDateTime(zdt(&z, js::i(a, "t"))?);
+            arg_duration(&a["recv"])?.total_with_provider(arg_unit(js::s(a, "unit")), Some(rel), &p) }, |t| p_f64(t.as_inner())),
+        "ZDur.compare" => run(|| { let rel = temporal_rs::options::RelativeTo::ZonedDateTime(zdt(&z, js::i(a, "t"))?);
+            arg_duration(&a["recv"])?.compare_with_provider(&arg_duration(&a["other"])?, Some(rel), &p) }, |o| p_ord(*o)),
         "Zoned.since" => run(|| zdt(&z, js::i(a, "t"))?.since_with_provider(&zdt(&z, js::i(a, "other"))?, arg_settings(&a["st"])?, &p), p_duration),
         _ => return None,
     })
